@@ -109,6 +109,9 @@ theorem writeBlocks_nopanic (l : List Bytes) : NoPanic (writeBlocks B l) := by
   | nil => unfold writeBlocks; nopanic_tac []
   | cons b rest ih => unfold writeBlocks; nopanic_tac [waitNotBusy_nopanic B _, writeData_nopanic B _ _, ih]
 
+theorem stopWrite_nopanic : NoPanic (stopWrite B) := by
+  unfold stopWrite; nopanic_tac [waitNotBusy_nopanic B _, writeByte_nopanic B _, readByte_nopanic B]
+
 theorem checkVersionStep_nopanic (next : Option (S _ (CardType × Nat))) (hn : ∀ k, next = some k → NoPanic k) :
     NoPanic (checkVersionStep B next) := by
   cases next with
